@@ -227,6 +227,49 @@ func (s *TieredCompactionStrategy) CompactRange(minKey, maxKey []byte) error {
 		}
 	}
 
+	// The selected files are rewritten into a level below every existing one,
+	// with all their keys, not only those inside the requested range. Every
+	// file that overlaps any selected file therefore has to be part of the
+	// compaction as well (repeatedly, until nothing new is found), or a
+	// version left behind in a shallower level would shadow a newer one that
+	// moved down
+	for {
+		var unionMin, unionMax []byte
+		selected := 0
+		for _, files := range task.InputFiles {
+			for _, file := range files {
+				selected++
+				if unionMin == nil || bytes.Compare(file.FirstKey, unionMin) < 0 {
+					unionMin = file.FirstKey
+				}
+				if unionMax == nil || bytes.Compare(file.LastKey, unionMax) > 0 {
+					unionMax = file.LastKey
+				}
+			}
+		}
+		if selected == 0 {
+			break
+		}
+
+		union := &SSTableInfo{FirstKey: unionMin, LastKey: unionMax}
+		expanded := 0
+		for level := 0; level <= maxLevel; level++ {
+			var overlappingFiles []*SSTableInfo
+			for _, file := range s.levels[level] {
+				if file.Overlaps(union) {
+					overlappingFiles = append(overlappingFiles, file)
+				}
+			}
+			expanded += len(overlappingFiles)
+			if len(overlappingFiles) > 0 {
+				task.InputFiles[level] = overlappingFiles
+			}
+		}
+		if expanded == selected {
+			break
+		}
+	}
+
 	// If no files overlap with the range, no compaction needed
 	totalInputFiles := 0
 	for _, files := range task.InputFiles {
